@@ -85,7 +85,9 @@ impl LiveUdptl {
 pub fn run_udptl(run: &mut Run, live: &LiveUdptl, dgram: &[u8], nt: bool) {
     let d = dgram.to_vec();
     let l = std::panic::AssertUnwindSafe(live);
-    exec(run, "udptl", &hex(dgram), "UdtlTransport::recv", nt, Some((17, 1400, dgram.len() as u64)), move || {
+    // the receive buffer is 1400 bytes: a longer datagram is truncated by the socket before the parser sees it
+    let seen = &dgram[..dgram.len().min(1400)];
+    exec(run, "udptl", &hex(seen), "UdtlTransport::recv", nt, Some((17, 1400, seen.len() as u64)), move || {
         l.rt.block_on(async {
             l.tx.send_to(&d, l.dst).await.expect("loopback send");
             let mut rb = rustrtc::UdtlReceiveBuffer::new();
@@ -159,6 +161,15 @@ pub fn special(run: &mut Run, rng: &mut Rng, thorough: bool) {
     let live = LiveUdptl::new();
     run_udptl(run, &live, &[], false);
     for a in 0..=255u8 { run_udptl(run, &live, &[a], false); run_udptl(run, &live, &[0, 1, 0, a], false); }
+    // datagrams around and above the 1400-byte receive buffer (the socket truncates; the model sees the first 1400 bytes)
+    for n in [1396usize, 1398, 1399, 1400, 1401, 1404, 2000] {
+        for fill in [0u8, 0xFF] {
+            let mut v = vec![0u8, 1]; v.extend_from_slice(&((n - 4 - 2) as u16).to_be_bytes()); v.extend(std::iter::repeat(fill).take(n - 4 - 2)); v.extend_from_slice(&[0, 0]);
+            run_udptl(run, &live, &v, true);
+            let mut w = vec![0u8, 1, 0, 2, 9, 9]; while w.len() + 3 <= n { w.extend_from_slice(&[0, 1, 7]); } while w.len() < n { w.push(0); }
+            run_udptl(run, &live, &w, true);
+        }
+    }
     for _ in 0..(if thorough { 30_000 } else { 1_500 }) {
         let v = gen_udptl(rng);
         run_udptl(run, &live, &v, true);
